@@ -55,7 +55,7 @@ THEOREMS = [
     "Typedpy.C07.cache_nested_example",
 ]
 RULE = ("class hierarchies (1-3 levels of single inheritance, fresh classes per case) with 1-7 Integer / nested "
-        "fields (nested classes directly, in Array, in Set; nesting depth <= 3), per-class _serialization_mapper "
+        "fields (nested classes directly, in Array, in Set — every other single-level Set item class is an ImmutableStructure; nesting depth <= 3), per-class _serialization_mapper "
         "drawn from {none, dict rename incl. swaps / rotations / chains on the current key / renames onto other "
         "field names / dotted keys / DoNotSerialize / explicit '<field>._mapper' entries, TO_LOWERCASE, "
         "TO_CAMELCASE, lists of 1-3 of these}; field names from 20 shapes (a_b1, x, aB, first_name, X, firstName, "
